@@ -23,6 +23,23 @@ def need(ctx, key, cond, where, msg, detail=None):
 # ---------------------------------------------------------------- C11
 
 
+def _ident_built(fn, pattern, args, span):
+    """does `fn` build an identifier `pattern` from exactly these argument expressions (aliases followed) with this
+    span - spelled as `format_ident!` or as `Ident::new(&format!(..), span)` alike?"""
+    al = {n: A.render(e) for n, (e, st, interp) in A.aliases(fn).items()}
+
+    def res(t):
+        t = t.replace(" ", "")
+        for _ in range(3):
+            t = al.get(t, t).replace(" ", "")
+        return t
+
+    for x, d in A.ident_ctors(fn.block):
+        if d["pattern"] == pattern and [res(a) for a in d["args"]] == [a.replace(" ", "") for a in args] and (res(d["span"]) if d["span"] else None) == (span.replace(" ", "") if span else None):
+            return True
+    return False
+
+
 def rule_accessors(ctx):
     """ACC: IsVariant / Unwrap / TryUnwrap build, per enabled variant, method name, pattern and error text from that one variant; the success arm returns exactly the binders of its own pattern, in field order; the fall-through arm binds the whole value (`val @ _`) and re-matches it against *all* variants (ignored ones too) so that every value yields a panic message / an error carrying the original value; owned/ref/ref_mut forms are emitted as configured."""
     # --- is_variant
@@ -31,7 +48,7 @@ def rule_accessors(ctx):
     t = A.fn_text(fn)
     tt = texts(fn)
     need(ctx, "is_variant:loop", "for variant_state in state.enabled_variant_data().variant_states{let variant=variant_state.variant.unwrap()" in t, w, "IsVariant no longer iterates over the enabled variants (ignored variants must get no method)")
-    need(ctx, "is_variant:same-variant", 'format_ident!("is_{}",variant.ident.unraw().to_string().to_case(Case::Snake),span=variant.ident.span(),)' in t.replace(" ", "") and "let variant_ident=&variant.ident" in t and "let data_pattern=match variant.fields{" in t, w, "method name, matched path and data pattern are no longer all taken from the variant being iterated")
+    need(ctx, "is_variant:same-variant", _ident_built(fn, "is_{}", ["variant.ident.unraw().to_string().to_case(Case::Snake)"], "variant.ident.span()") and "let variant_ident=&variant.ident" in t and "let data_pattern=match variant.fields{" in t, w, "method name, matched path and data pattern are no longer all taken from the variant being iterated")
     need(ctx, "is_variant:matches", any("pubconstfn#fn_name(&self)->bool{derive_more::core::matches!(self,#enum_name::#variant_ident#data_pattern)}" in s for s in tt), w, "`is_x()` is no longer `matches!(self, Enum::X <pattern>)`", {"templates": tt})
     need(ctx, "is_variant:patterns", "{..}" in tt and "(..)" in tt and "" in tt, w, "data patterns `{..}` / `(..)` / (unit) changed")
     # --- unwrap / try_unwrap
@@ -57,7 +74,7 @@ def rule_accessors(ctx):
             need(
                 ctx,
                 f"{kind_}:{nm}",
-                re.search(r'let %s=format_ident!\("%s_\{ident\}%s",ident=%s\.ident\.unraw\(\)\.to_string\(\)\.to_case\(Case::Snake\),span=%s\.ident\.span\(\),?\)' % (nm, kind_, pre, re.escape(V), re.escape(V)), ti.replace(" ", "").replace("let" + nm, "let " + nm)) is not None,
+                re.search(r'let %s=format_ident!\("%s_\{\}%s",%s\.ident\.unraw\(\)\.to_string\(\)\.to_case\(Case::Snake\),span=%s\.ident\.span\(\)\)' % (nm, kind_, pre, re.escape(V), re.escape(V)), ti.replace(" ", "").replace("let" + nm, "let " + nm)) is not None,
                 w,
                 f"{kind_}: `{nm}` is not `{kind_}_<snake_case(variant)>{pre}`",
             )
@@ -81,7 +98,7 @@ def rule_accessors(ctx):
             src_, pat_, stmts_ = it_
             pm = re.fullmatch(r"\((\w+),(\w+)\)", pat_)
             body_ = ";".join(A.render_stmt(x) for x in stmts_)
-            b_ok = bool(pm) and "unnamed" in src_ and src_.endswith(".enumerate()") and f'format_ident!("field_{{{pm.group(1)}}}")' in body_.replace(" ", "") and f"&{pm.group(2)}.ty" in body_
+            b_ok = bool(pm) and "unnamed" in src_ and src_.endswith(".enumerate()") and f'format_ident!("field_{{}}",{pm.group(1)})' in body_.replace(" ", "") and f"&{pm.group(2)}.ty" in body_
         need(ctx, f"{kind_}:binders", b_ok and "(quote!((#(#idents),*)),quote!((#(#idents),*)),types)" in gt, ctx.where(gi.file, gi.node), f"{kind_}: pattern binders, returned tuple and types no longer come from one enumerate over the variant's fields (same identifiers, same order)")
         fb = A.get_fn(ctx.files, rel, "failed_block")
         ft = A.fn_text(fb)
@@ -237,7 +254,7 @@ def rule_discriminants(ctx):
     # repr table
     ri = A.get_fn(ctx.files, "impl/src/utils.rs", "attr::repr_int::<ReprInt as ParseMultiple>::parse_attr_with")
     t = A.fn_text(ri)
-    names = re.findall(r'"([ui](?:8|16|32|64|128|size))"', t)
+    names = re.findall(r'"([ui](?:8|16|32|64|128|size))"', str(t) + " ".join(A.render(e_) for e_ in A.referenced_consts(ri).values()))
     need(ctx, "repr:names", sorted(set(names)) == sorted(["u8", "u16", "u32", "u64", "u128", "usize", "i8", "i16", "i32", "i64", "i128", "isize"]), ctx.where(ri.file, ri.node), f"accepted repr integers are {sorted(set(names))}")
     # every hint is looked at, and a hint that is not the integer has its `(..)` body consumed: the callback leaves early
     # only right after it stored an integer repr (an early exit anywhere else leaves `align(2)`'s body unparsed:
@@ -262,7 +279,7 @@ def rule_discriminants(ctx):
         "`#[repr(u8, align(2))]` then fails with \"expected `,`\" and no `TryFrom` impl is generated, although `#[repr(align(2), u8)]` works",
     )
     ty = A.get_fn(ctx.files, "impl/src/utils.rs", "attr::repr_int::ReprInt::ty")
-    need(ctx, "repr:default", 'unwrap_or_else(||syn::Ident::new("isize",Span::call_site()))' in A.fn_text(ty), ctx.where(ty.file, ty.node), "the default representation is no longer `isize`")
+    need(ctx, "repr:default", 'unwrap_or_else(||format_ident!("isize"))' in A.fn_text(ty), ctx.where(ty.file, ty.node), "the default representation is no longer `isize`")
     mg = A.get_fn(ctx.files, "impl/src/utils.rs", "attr::repr_int::<ReprInt as ParseMultiple>::merge_attrs")
     arms = {}
     for arm, _ in A.find(mg.block, "Arm"):
@@ -311,21 +328,26 @@ def rule_from_str(ctx):
     et = A.fn_text(ex)
     from . import reject as RJ
 
+    from .. import guardf as GF
+
     def reach(callee):
         out = []
         for c, ps in A.find(ex.block, "Expr::Call"):
             if A.kind(c["func"]) == "Expr::Path" and A.path_str(c["func"]).split("::")[-1] == callee:
-                out.append(A.alpha(" && ".join(RJ.guard_chain(ex, c, ps, RJ._lets(ex))), numbered=False))
+                out.append(RJ.site_formula(ex, c, ps))
         return out
 
-    re_enum, re_struct = reach("enum_from"), reach("struct_from")
+    f_enum, f_struct = reach("enum_from"), reach("struct_from")
+    re_enum, re_struct = [GF.canon_text(x) for x in f_enum], [GF.canon_text(x) for x in f_struct]
     need(
         ctx,
         "from_str:dispatch",
-        len(re_enum) == 1
-        and len(re_struct) == 1
-        and re.fullmatch(r"if (.+)\.derive_type==DeriveType::Enum", re_enum[0]) is not None
-        and re_struct[0] == "if !(" + re_enum[0][3:] + ")",
+        len(f_enum) == 1
+        and len(f_struct) == 1
+        and f_enum[0][0] == "is"
+        and f_enum[0][1].endswith(".derive_type")
+        and f_enum[0][2] == "DeriveType::Enum"
+        and GF.equivalent(f_struct[0], GF.f_not(f_enum[0]))[0],
         ctx.where(ex.file, ex.node),
         f"`expand` reaches `enum_from` under {re_enum} and `struct_from` under {re_struct} instead of exactly `state.derive_type == DeriveType::Enum` / its negation: deciding by another observation (e.g. 'has variants') sends an enum without variants to the struct path, which panics instead of generating the impl that rejects every string",
         {"body": et[:300]},
@@ -437,17 +459,28 @@ def rule_delegation(ctx):
         for mac, ps in A.find(g.block, ("Expr::Macro", "Stmt::Macro")):
             if A.path_last(mac["mac"]["path"]) == "quote":
                 txt = T.ir_text(T.to_ir(mac["mac"]["tokens"])).replace(" ", "")
-                out.setdefault(txt, []).append(A.alpha(" && ".join(RJ.guard_chain(g, mac, ps, RJ._lets(g))), numbered=False))
+                out.setdefault(txt, []).append(RJ.site_formula(g, mac, ps))
         return out
 
+    from .. import guardf as GF
+
+    class _Cond(list):
+        """[formula]; equal to another such list when the formulas are pairwise equivalent"""
+
+        def __eq__(self, other):
+            return isinstance(other, list) and len(self) == len(other) and all(GF.equivalent(a, b)[0] for a, b in zip(self, other))
+
+        def __ne__(self, other):
+            return not self.__eq__(other)
+
     tc = tpl_conditions(d)
-    FWD, DIR = ["if $.forward"], ["if !($.forward)"]
+    FWD, DIR = _Cond([("atom", "$.forward")]), _Cond([("not", ("atom", "$.forward"))])
     need(
         ctx,
         "deref:direct",
         tc.get("#field_type") == DIR and tc.get("&#member") == DIR and tc.get("#casted_trait::Target") == FWD and tc.get("#casted_trait::deref(&#member)") == FWD and tc.get("where#field_type:#trait_path") == FWD,
         w,
-        f"Deref: the direct form (`Target = FieldTy`, `&self.field`) and the forwarded form are no longer selected by `info.forward` alone ({ {k: v for k, v in tc.items() if len(k) < 40} })",
+        f"Deref: the direct form (`Target = FieldTy`, `&self.field`) and the forwarded form are no longer selected by `info.forward` alone ({ {k: [GF.canon_text(x) for x in v] for k, v in tc.items() if len(k) < 40} })",
     )
     need(ctx, "deref:impl", any("typeTarget=#target;#[inline]fnderef(&self)->&Self::Target{#body}" in s for s in tt), w, "Deref impl shape changed")
     dm = A.get_fn(ctx.files, "impl/src/deref_mut.rs", "expand")
@@ -502,7 +535,16 @@ def rule_delegation(ctx):
     }
     for k, v in want.items():
         need(ctx, f"reftype:{k[0]}:{k[1]}", tbl.get(k) == v, ctx.where(rt[k[0]].file, rt[k[0]].node), f"`RefType::{k[0]}` for `{k[1]}` yields `{tbl.get(k)}` instead of `{v}`: owned / shared / mutable forms no longer differ only by their reference tokens")
-    need(ctx, "reftype:rwl", "if !self.is_ref(){return quote!()};let lifetime=self.lifetime();let mutability=self.mutability();quote!(&#lifetime#mutability)" in A.fn_text(rt["reference_with_lifetime"]).replace("} let", "};let"), ctx.where(rt["lifetime"].file, rt["reference_with_lifetime"].node), "`reference_with_lifetime` is no longer `& 'lt [mut]`")
+    # `& <lifetime> <mutability>` however it is assembled (one template over two aliases, or a stream extended piecewise),
+    # after the early `if !self.is_ref() { return quote!() }`
+    rwl = rt["reference_with_lifetime"]
+    al_r = {n: A.render(e).replace(" ", "") for n, (e, st_, interp) in A.aliases(rwl).items()}
+    reads = set()
+    for t_ in T.templates_both(rwl):
+        txt_ = T.ir_text([dict(x_, s=al_r.get(x_["s"], x_["s"])) if x_["t"] == "var" else x_ for x_ in t_.ir]).replace(" ", "")
+        reads.add(txt_)
+    first = A.render_stmt(rwl.block["stmts"][0]) if rwl.block["stmts"] else ""
+    need(ctx, "reftype:rwl", "&#self.lifetime()#self.mutability()" in reads and first.replace(" ", "").startswith("if!self.is_ref(){returnquote!()}"), ctx.where(rt["lifetime"].file, rwl.node), f"`reference_with_lifetime` is no longer `& 'lt [mut]` (readings {sorted(reads)})")
     # AsRef / AsMut
     ar = A.get_fn(ctx.files, "impl/src/as/mod.rs", "<Expansion as ToTokens>::to_tokens")
     t = A.fn_text(ar)
